@@ -33,7 +33,7 @@ COMPONENTS_STUB = ["UDP network/select/clock (simulated)",
 BUFFERS = [32, 64, 100, 128, 248, 256, 512]
 FAULTS = ["req_loss", "rep_loss", "rep_delay", "rep_dup", "req_delay",
           "req_dup", "retryable_rc", "fatal_rc", "slow_machine", "partition",
-          "transient_busy", "rep_batch"]
+          "transient_busy", "rep_batch", "spurious_wakeup"]
 STATES = [0, 1, 2, 3, 4, 5, 6, 7, 8, 9, 10, 11]
 
 
